@@ -56,6 +56,11 @@ def OneOf(*ts):
 
 Opaque = T("Opaque")
 
+
+def Obj(**fields):
+    """Immutable struct value with named fields (no identity, no heap)."""
+    return T("Obj", tuple(sorted(fields.items())))
+
 # ---------------------------------------------------------------------------------------------
 # element kinds of pure sequences / records
 
@@ -87,7 +92,7 @@ def kind_sort(kind: str):
         return z3.IntSort()
     if kind == "bool":
         return z3.BoolSort()
-    if kind == "ref":
+    if kind in ("ref", "opaque"):
         return z3.IntSort()
     if kind in _RECORDS:
         return _RECORDS[kind][0]
